@@ -2259,7 +2259,9 @@ func DecodeQueuedState(buf []byte) (*QueuedState, error) {
 		sleepCmd, err := DecodeSleepCommand(sleepData)
 		if err == nil {
 			q.SleepCmd = sleepCmd
-			r.offset += 33 + len(sleepCmd.SeenBy)*16 // Advance past sleep command
+			// Advance past the sleep command: origin(16) + id(8) + timestamp(8) +
+			// signature(64) + seenBy count(1) + seenBy entries
+			r.offset += 16 + 8 + 8 + SignatureSize + 1 + len(sleepCmd.SeenBy)*16
 		}
 	}
 
